@@ -178,9 +178,23 @@ func runC16(c *Ctx) {
 				return
 			}
 			d := normExpr(ns, []string{c.exprDesc(st.Val)})[0]
+			// `spec.path = withDefaultExt(spec.path)`: the store is unconditional, the value a choice
+			// between the path and path + ".yaml": judge the extended alternative where it is computed
+			var at ssa.Instruction = st
+			if _, isPhi := st.Val.(*ssa.Phi); isPhi {
+				for _, lv := range phiLeaves(st.Val) {
+					ld := normExpr(ns, []string{c.exprDesc(lv)})[0]
+					if ld == "path/filepath.Clean($1)" {
+						okClean = true
+					}
+					if li, isInstr := lv.(ssa.Instruction); isInstr && strings.HasPrefix(ld, "(") && strings.HasSuffix(ld, ` + ".yaml")`) {
+						d, at = ld, li
+					}
+				}
+			}
 			if strings.HasPrefix(d, "(") && strings.HasSuffix(d, ` + ".yaml")`) {
 				x := strings.TrimSuffix(strings.TrimPrefix(d, "("), ` + ".yaml")`)
-				gs := normExpr(ns, c.exprGuardsOf(ns, st))
+				gs := normExpr(ns, c.exprGuardsOf(ns, at))
 				var j, y bool
 				for _, g := range gs {
 					if g == "path/filepath.Ext("+x+`) != ".json"` {
